@@ -29,6 +29,9 @@ pub fn fake_shell() {
     let mut i = 0;
     while i < tpl.len() { if tpl[i..].starts_with(needle) { out.extend(salt.as_bytes()); i += needle.len(); } else { out.push(tpl[i]); i += 1; } }
     std::io::stdout().write_all(&out).ok();
+    std::io::stdout().flush().ok();
+    // the status the shell ends with (a script left by `exit <code>`, or the status of its last command)
+    std::process::exit(std::env::var("SVH_FAKE_EXIT").ok().and_then(|c| c.parse().ok()).unwrap_or(0));
 }
 
 fn payload(r: &mut Rng) -> Vec<u8> {
@@ -49,10 +52,14 @@ pub fn case(r: &mut Rng, work: &Path, fake: &Path) -> String {
     let n = r.range(1, 4);
     let mut stream: Vec<u8> = vec![];
     let malformed = r.below(10);   // 0-5 ideal; 6-9 one deviation
+    // the script was left early by the last test case reached (`exit <code>`): its divider and everything after it is missing
+    let left_early = r.chance(1, 6);
+    let reached = if left_early { r.below(n as u64) as usize } else { n };
+    let fake_exit: i32 = if left_early { *r.pick(&[80, 80, 1, 0]) } else { *r.pick(&[0, 0, 0, 1, 80]) };
     let bad_at = r.below(n as u64) as usize;
     for i in 0..n {
         let mut p = payload(r);
-        let code = match r.below(8) { 0 => "1".to_string(), 1 => "255".to_string(), 2 => "127".to_string(), 3 => "-1".to_string(), 4 => "+5".to_string(), 5 => "007".to_string(), _ => "0".to_string() };
+        let code = match r.below(11) { 0 => "1".to_string(), 1 => "255".to_string(), 2 => "127".to_string(), 3 => "-1".to_string(), 4 => "+5".to_string(), 5 => "007".to_string(), 8 => "80".to_string(), 9 => r.pick(&["080", "+80", "8", "800"]).to_string(), _ => "0".to_string() };
         let mut idx = i.to_string();
         let mut line = None;
         if i == bad_at {
@@ -64,10 +71,12 @@ pub fn case(r: &mut Rng, work: &Path, fake: &Path) -> String {
                 _ => {}
             }
         }
+        if i > reached { break; }
         stream.extend(&p);
+        if i == reached { break; }
         stream.extend(line.unwrap_or_else(|| format!("~~~~~~~~EXECDIVIDER::@SALT@::{}::{}\n", idx, code)).as_bytes());
     }
-    if r.chance(1, 6) { stream.extend(b"trailing text without divider\n"); }
+    if !left_early && r.chance(1, 6) { stream.extend(b"trailing text without divider\n"); }
     let tpl = work.join("stream.tpl");
     std::fs::write(&tpl, &stream).unwrap();
     std::env::set_var("SVH_FAKE_STREAM", &tpl);
@@ -75,6 +84,7 @@ pub fn case(r: &mut Rng, work: &Path, fake: &Path) -> String {
     let dump = work.join("script.dump");
     let _ = std::fs::remove_file(&dump);
     std::env::set_var("SVH_FAKE_SCRIPT", &dump);
+    std::env::set_var("SVH_FAKE_EXIT", fake_exit.to_string());
     let combined = r.chance(2, 3);
     let mut cfg = TestCaseConfig::empty(); cfg.output_stream = Some(if combined { OutputStreamControl::Combined } else { OutputStreamControl::Stdout }); cfg.keep_crlf = Some(true);
     if r.chance(1, 3) { for _ in 0..r.range(1, 3) { cfg.environment.insert(format!("K{}", r.below(4)), r.pick(&["v", "a b", "it's", "", "x!y", "é", "a=b,c/d.e+f-g_h", "$HOME `x`"]).to_string()); } }
@@ -87,7 +97,9 @@ pub fn case(r: &mut Rng, work: &Path, fake: &Path) -> String {
     let ctx = ContextBuilder::default().work_directory(work.to_path_buf()).temp_directory(work.to_path_buf()).file(PathBuf::from("d.t")).config(doc).build().unwrap();
     let res = std::panic::catch_unwind(std::panic::AssertUnwindSafe(|| BashScriptExecutor::new(fake).execute_all(&refs, &ctx)));
     let out = match res {
-        Err(_) => "panic".to_string(), Ok(Err(_)) => "err".to_string(),
+        Err(_) => "panic".to_string(),
+        Ok(Err(scrut::executors::error::ExecutionError::Skipped(i))) => format!("skip:{}", i),
+        Ok(Err(_)) => "err".to_string(),
         Ok(Ok(outs)) => if outs.is_empty() { "-".to_string() } else { outs.iter().map(|o| format!("{}:{}", match o.exit_code { ExitStatus::Code(c) => c.to_string(), _ => "x".into() }, hex(&o.stdout.to_bytes()))).collect::<Vec<_>>().join(",") },
     };
     // the stream as the executor saw it, with a fixed stand-in for the salt (the model only needs it to be colon-free)
@@ -99,7 +111,7 @@ pub fn case(r: &mut Rng, work: &Path, fake: &Path) -> String {
     let script_n = if salt.is_empty() { script.clone() } else {
         let mut o = vec![]; let mut i = 0; while i < script.len() { if script[i..].starts_with(&salt) { o.extend(b"SALTsalt0123456789ab"); i += salt.len(); } else { o.push(script[i]); i += 1; } } o };
     let env_s = if cfg.environment.is_empty() { "-".to_string() } else { cfg.environment.iter().map(|(k, v)| format!("{}:{}", hex(k.as_bytes()), hex(v.as_bytes()))).collect::<Vec<_>>().join(",") };
-    format!("F {} {}|{}\nC {}|{}|{}|{}", n, hex(&seen), out, combined as u8, env_s, exprs.iter().map(|e| hex(e.as_bytes())).collect::<Vec<_>>().join(","), hex(&script_n))
+    format!("F {} {} {}|{}\nC {}|{}|{}|{}", n, fake_exit, hex(&seen), out, combined as u8, env_s, exprs.iter().map(|e| hex(e.as_bytes())).collect::<Vec<_>>().join(","), hex(&script_n))
 }
 
 pub fn main(args: &[String], w: &mut dyn Write) {
